@@ -88,6 +88,9 @@ def ARec(): return Struct(mod_a.Rec, {"id": Int(), "tag": Str()}, name="a.Rec")
 def BRec(): return Struct(mod_b.Rec, {"id": Str(), "tag": Int()}, kind="typeddict", name="b.Rec")
 
 
+def JobOptions(): return Struct(naming.Job.Options, {"level": Int()}, name="Job.Options")
+
+
 def naming_shapes():
     left = Struct(naming.Left, {"s": AShared(), "id": Str()})
     right = Struct(naming.Right, {"s": AShared(), "id": Int()})
@@ -99,6 +102,10 @@ def naming_shapes():
         Struct(naming.Aliased, {"x": Wrapped(mod_a.ItemAlias, AItem(), "alias(a.Item)"), "y": BItem(),
                                 "recs": FixedTuple(ARec(), BRec())}),
         Struct(naming.Twice, {"p": AItem(), "q": Opt(AItem()), "r": ListOf(AItem(), 1)}),
+        Struct(naming.Pipeline, {"first": Struct(naming.Stage, {"opts": JobOptions()}), "opts": JobOptions()}),
+        Struct(naming.Pipeline2, {"opts": JobOptions(), "first": Struct(naming.Stage, {"opts": JobOptions()}),
+                                  "plain": Struct(naming.Options, {"level": Str()}, name="Options")}),
+        Struct(naming.Job, {"opts": JobOptions()}),
         ListOf(Struct(naming.Holder, {"a": AItem(), "b": BItem()}), 1),
         DictOf(Str(), BItem(), 1),
         FixedTuple(AItem(), BItem(), AShared(), BShared()),
